@@ -271,7 +271,7 @@ func symConvHook(i *interpreter, utDst, utSrc types.Type, x value) (value, bool)
 				return i.x.symConv(b.Kind(), xv), true
 			}
 			if b.Kind() == types.String {
-				panic(unsupported("string(symbolic integer)"))
+				return i.x.runeToString(xv), true
 			}
 		}
 		panic(unsupported(fmt.Sprintf("conversion of symbolic %v to %v", utSrc, utDst)))
@@ -748,4 +748,52 @@ func (x *pathCtx) drainGoroutines(i *interpreter) {
 type pendingGo struct {
 	id int
 	f  func()
+}
+
+// runeToString is string(r) for a symbolic integer: UTF-8 encoding with one
+// decision on the encoded length.
+func (x *pathCtx) runeToString(v sym) value {
+	tt := x.tt
+	w, signed := kindBits(v.k)
+	var r *Term
+	switch {
+	case w == 32:
+		r = v.t
+	case w < 32 && signed:
+		r = tt.SignExt(v.t, 32)
+	case w < 32:
+		r = tt.ZeroExt(v.t, 32)
+	default:
+		// wider than a rune: out of range values encode U+FFFD
+		fits := tt.Eq(tt.SignExt(tt.Extract(31, 0, v.t), w), v.t)
+		if !x.decideBool(fits, "string(int) range") {
+			return "\uFFFD"
+		}
+		r = tt.Extract(31, 0, v.t)
+	}
+	c := func(u uint64) *Term { return tt.BV(32, u) }
+	ule := func(a, b *Term) *Term { return tt.BVCmp("bvule", a, b) }
+	neg := tt.BVCmp("bvslt", r, c(0))
+	one := tt.And(tt.Not(neg), ule(r, c(0x7f)))
+	two := tt.And(ule(c(0x80), r), ule(r, c(0x7ff)))
+	sur := tt.And(ule(c(0xd800), r), ule(r, c(0xdfff)))
+	three := tt.And(tt.And(ule(c(0x800), r), ule(r, c(0xffff))), tt.Not(sur))
+	four := tt.And(ule(c(0x10000), r), ule(r, c(0x10ffff)))
+	bad := tt.Not(tt.Or(tt.Or(one, two), tt.Or(three, four)))
+	b8 := func(t *Term) value { return x.lower(tt.Extract(7, 0, t), types.Uint8) }
+	shr := func(n uint64) *Term { return tt.BVBin("bvlshr", r, c(n)) }
+	cont := func(t *Term) value {
+		return b8(tt.BVBin("bvor", c(0x80), tt.BVBin("bvand", t, c(0x3f))))
+	}
+	switch x.decide([]*Term{one, two, three, four, bad}, "string(rune) length") {
+	case 0:
+		return mkStr([]value{b8(r)})
+	case 1:
+		return mkStr([]value{b8(tt.BVBin("bvor", c(0xc0), shr(6))), cont(r)})
+	case 2:
+		return mkStr([]value{b8(tt.BVBin("bvor", c(0xe0), shr(12))), cont(shr(6)), cont(r)})
+	case 3:
+		return mkStr([]value{b8(tt.BVBin("bvor", c(0xf0), shr(18))), cont(shr(12)), cont(shr(6)), cont(r)})
+	}
+	return "\uFFFD"
 }
